@@ -86,8 +86,15 @@ class AttrDict(dict):
     def get_graph(self, key, default=None):
         return self._val(key, default, "as_graph")
 
+    def copy(self):
+        return AttrDict(self)
 
-for _n in ("get_int", "get_float", "get_ints", "get_floats", "get_string", "get_tensor", "get_graph", "_val"):
+    def add(self, attr):
+        """onnx_ir.Attributes.add: store under the attribute's name (replacing one of the same name)"""
+        self[attr.fields["name"] if isinstance(attr, SObj) else attr.name] = attr
+
+
+for _n in ("get_int", "get_float", "get_ints", "get_floats", "get_string", "get_tensor", "get_graph", "_val", "copy", "add"):
     getattr(AttrDict, _n)._pyvc_native = True
 
 
